@@ -169,6 +169,23 @@ theorem pretty_text_stable_multi_core (cfg : Cfg) (hm : cfg.mini = false) (hi : 
   congr 2
   exact outToksM_congr cfg dt _ _ (outBlocksM_stable cfg hm hi dt kids hs)
 
+/-- `pretty_text_stable_multi_core` for ANY token sequence whose plain-parser tree is the strict multi-root document -/
+theorem pretty_text_stable_multi_core_open (cfg : Cfg) (hm : cfg.mini = false) (hi : IndentWS cfg)
+    (kids : List FNode) (hs : StrictL kids) (hnw : NoWrapperL kids) (hmulti : topScan false kids = none)
+    (toks : List Tok) (hnws : NoWrapperStart toks) (ps : St) (hp : Plain.feed toks = .ok ps)
+    (hroot : ps.root = some (FNode.elem wrapper {} false kids).toNode) (hdt : DtOK ps.doctype) :
+    ∃ out1 toks2 out2 toks3, format cfg toks = .ok out1 ∧ lexStrict out1 = some toks2 ∧
+      format cfg (toks2.map Tok.ofToken) = .ok out2 ∧ lexStrict out2 = some toks3 ∧
+      format cfg (toks3.map Tok.ofToken) = .ok out2 := by
+  obtain ⟨f1, l1, w1, p1, s1, n1, m1⟩ :=
+    pass_step_multi cfg hi ps.doctype hdt kids hs hnw hmulti toks hnws ps hp hroot rfl
+  obtain ⟨f2, l2, w2, p2, s2, n2, m2⟩ := pass_step_multi cfg hi ps.doctype hdt _ s1 n1 m1 _ w1 _ p1 rfl rfl
+  obtain ⟨f3, _, _, _, _, _, _⟩ := pass_step_multi cfg hi ps.doctype hdt _ s2 n2 m2 _ w2 _ p2 rfl rfl
+  refine ⟨_, _, _, _, f1, l1, f2, l2, ?_⟩
+  rw [f3]
+  congr 2
+  exact outToksM_congr cfg ps.doctype _ _ (outBlocksM_stable cfg hm hi ps.doctype kids hs)
+
 /-! ### the layout law on the output tokens -/
 
 /-- **C12a on the output text, multi-root, token form.** -/
